@@ -54,7 +54,7 @@ class Prop(Check):
         "LinkLoc.C28_notunique_pinned_false",
         "LinkLoc.C28_linecol_cr_dead", "LinkLoc.C28_unresolvable_first", "LinkLoc.C28_unresolvable_raised",
         "LinkLoc.C28_unresolvable_iff", "LinkLoc.C28_giveup_round_unique", "LinkLoc.C28_unresolvable_computed",
-        "LinkLoc.C28_spec_reflects", "LinkLoc.C28_ref_strong",
+        "LinkLoc.C28_spec_reflects", "LinkLoc.C28_ref_strong", "LinkLoc.C28_linecol_meaning",
     ]
     DRIVER = "Drivers/Positions.lean"
     QUICK_CASES = 480
